@@ -18,6 +18,9 @@ M = [
     ("m02", "C01", "src/redis/executor/string_ops.rs", "            .insert(key.to_string(), Value::String(value.clone()));\n        self.expirations.remove(key);\n        #[cfg(debug_assertions)]\n        debug_assert!(\n            self.data.contains_key(key),\n            \"Postcondition: key must exist after SETNX success\"",
      "            .insert(key.to_string(), Value::String(value.clone()));\n        #[cfg(debug_assertions)]\n        debug_assert!(\n            self.data.contains_key(key),\n            \"Postcondition: key must exist after SETNX success\"", r"R01\."),
     ("m03", "C01", "src/redis/executor/key_ops.rs", "                None => return RespValue::Integer(0),\n", "", r"R01\.7"),
+    ("m38", "C01", "src/redis/executor/sorted_set_ops.rs", "                if zs.is_empty() {\n                    // Every pair was filtered out (e.g. XX on an absent key): the sorted set\n                    // created above must not be left behind empty\n                    self.data.remove(key);\n                    self.expirations.remove(key);\n                    return RespValue::Integer(0);\n                }\n", "", r"R01\.6"),
+    ("m39", "C01", "src/redis/executor/list_ops.rs", "        // Redis auto-deletes empty lists\n        if matches!(self.data.get(key), Some(Value::List(l)) if l.is_empty()) {\n            self.data.remove(key);\n            self.expirations.remove(key);\n        }\n        #[cfg(debug_assertions)]\n        if matches!(self.data.get(key), Some(Value::List(l)) if l.is_empty()) {\n            panic!(\"Invariant violated: empty list should have been deleted\");\n        }\n        result\n    }\n\n    pub(super) fn execute_rpop(",
+     "        #[cfg(debug_assertions)]\n        if matches!(self.data.get(key), Some(Value::List(l)) if l.is_empty()) {\n            panic!(\"Invariant violated: empty list should have been deleted\");\n        }\n        result\n    }\n\n    pub(super) fn execute_rpop(", r"R01\.5"),
     ("m04", "C02", "src/production/sharded_actor.rs", "        let result = response_future(response_slot.clone()).await;\n        self.response_pool.release(response_slot);\n        result\n    }\n\n    /// Pooled fast SET",
      "        self.response_pool.release(response_slot.clone());\n        let result = response_future(response_slot).await;\n        result\n    }\n\n    /// Pooled fast SET", r"R02\.4"),
     ("m05", "C03", "src/production/sharded_actor.rs", "    hash_key_bytes(key.as_bytes(), num_shards)\n", "    let mut h = DefaultHasher::new();\n    key.hash(&mut h);\n    (h.finish() as usize) % num_shards\n", r"R03\.1"),
